@@ -160,3 +160,17 @@ Definition path_is_relative (p : str) : bool :=
   | [] => false
   | c :: r => negb (c =? 47) && memZ 47 r
   end.
+
+(* drain.c:70-90 sink_string, over explicit buffers: [cur] is the whole block *string points to
+   (None = NULL), [alloc_ok] whether realloc succeeds.  The new block has exactly
+   strlen + size + 1 bytes: the old string, the chunk, the terminator. *)
+Fixpoint c_strlen (b : list Z) : nat :=
+  match b with
+  | [] => O
+  | c :: r => if c =? 0 then O else S (c_strlen r)
+  end.
+Definition sink_string (cur : option (list Z)) (chunk : list Z) (alloc_ok : bool) : Z * option (list Z) :=
+  let old := match cur with Some b => b | None => [] end in
+  let n := c_strlen old in
+  if alloc_ok then (0, Some (firstn n old ++ chunk ++ [0]))
+  else (REPROC_ENOMEM, cur).
